@@ -773,6 +773,11 @@ class StabilizerCode(metaclass=ABCMeta):
         code_name = self.id
         picture = 'rotated' if rotated_picture else 'kitaev'
 
+        # Codes that have no separate rotated picture are drawn as in the
+        # Kitaev picture.
+        if not data[code_name]['stabilizers'][picture]:
+            picture = 'kitaev'
+
         representation = data[code_name]['stabilizers'][picture][stab_type]
         representation['type'] = stab_type
         representation['location'] = location
